@@ -88,7 +88,8 @@ def find_state_changes(
     step=60,
 ) -> Generator:
     state_change_intervals = find_state_change_intervals(head, last, get, equals, step)
-    for int_head, int_head_value, int_tail, int_last_value in state_change_intervals:
+    # intervals are discovered from `head` downwards, changes are reported from `last` upwards
+    for int_head, int_head_value, int_tail, int_last_value in reversed(list(state_change_intervals)):
         yield from walk_state_change_interval(
             int_head,
             int_tail,
